@@ -154,3 +154,9 @@ Print Assumptions C06_phases_forward.
 Check (eq_refl : prank = fun s i => match alookup i (ops s) with
   | Some o => match o_phase o with NotStarted => 0%nat | Wait1 => 1%nat | Wait2 => 2%nat | Finished => 3%nat end
   | None => 4%nat end).
+
+(* requests submitted while no connection is up wait in the Context's queue: installing a new transport (set_up) leaves the
+   queue as it is (seeded defect C01-7B emptied it) *)
+Theorem C06_queue_survives_set_up : forall s : sys, msgq (fst (step s EReconnect)) = msgq s.
+Proof. intros s. reflexivity. Qed.
+Print Assumptions C06_queue_survives_set_up.
